@@ -1,6 +1,8 @@
 package symex
 
 import (
+	"verif/internal/smt"
+
 	"bufio"
 	"crypto/sha256"
 	"encoding/hex"
@@ -39,6 +41,51 @@ func OpenCache(path string) *AnswerCache {
 		}
 	}
 	return c
+}
+
+// QueryKey is the structural key of a query: the hashes of its hypotheses (in order) and of its goal. It identifies the
+// query as the script text does (variable names, table contents and structure are all hashed) but costs no printing.
+func QueryKey(hyps []*smt.Term, goal *smt.Term) string {
+	h := sha256.New()
+	ph := smt.PreludeHash()
+	h.Write([]byte("structural-key-v1"))
+	h.Write(ph[:])
+	for _, t := range hyps {
+		x := t.Hash()
+		h.Write(x[:])
+	}
+	h.Write([]byte("|goal|"))
+	if goal != nil {
+		x := goal.Hash()
+		h.Write(x[:])
+	}
+	return hex.EncodeToString(h.Sum(nil))
+}
+
+// ProvedKey / AddKey: the same cache addressed by a precomputed key.
+func (c *AnswerCache) ProvedKey(k string) bool {
+	if c == nil {
+		return false
+	}
+	c.mu.Lock()
+	defer c.mu.Unlock()
+	if c.have[k] {
+		c.Hits++
+		return true
+	}
+	return false
+}
+
+func (c *AnswerCache) AddKey(k string) {
+	if c == nil {
+		return
+	}
+	c.mu.Lock()
+	defer c.mu.Unlock()
+	if !c.have[k] {
+		c.have[k] = true
+		c.added = append(c.added, k)
+	}
 }
 
 func scriptKey(script string) string {
